@@ -61,7 +61,7 @@ template <class A, class B> static double primal_err(const A& dual, const B& dbl
   return w;
 }
 
-struct Res { std::string name; bool needs_log = false; MatL Jan, Jad, scale; double perr = 0; bool rows_tan = true, cols_tan = true; bool ok = true; };
+struct Res { std::string name; bool needs_log = false; MatL Jan, Jad, scale; double perr = 0; bool rows_tan = true, cols_tan = true; bool ok = true; bool check_valid = false; double out_dev = 0; };
 
 static Res evaluate(int idx, const GD& X, const GD& Y, const TD& T, const TD& U, const typename GD::Vector& pt, double w_obj, double cov_scale, double S) {
   Res r;
@@ -106,6 +106,7 @@ static Res evaluate(int idx, const GD& X, const GD& Y, const TD& T, const TD& U,
       std::vector<Scalar> st(R), de(D), out(R);
       const bool wrt_state = (idx == 17 || idx == 19);
       const GroupT Xs = wrt_state ? perturbed(X) : Xc; const TangentT Td = wrt_state ? Tc : perturbed(T);
+      r.check_valid = true;
       for (int i = 0; i < R; ++i) st[i] = Xs.coeffs()(i);
       for (int i = 0; i < D; ++i) de[i] = Td.coeffs()(i);
       bool okf;
@@ -115,6 +116,7 @@ static Res evaluate(int idx, const GD& X, const GD& Y, const TD& T, const TD& U,
       const Eigen::Map<const GroupT> o(out.data());
       r.name = idx == 17 ? "LocalParameterization/state" : idx == 18 ? "LocalParameterization/delta" : idx == 19 ? "Manifold::Plus/state" : "Manifold::Plus/delta";
       r.Jan = toML(wrt_state ? a : b); r.Jad = djac(GroupT(o), y); r.perr = primal_err(o.coeffs(), y.coeffs(), S); r.ok = okf;
+      { VecL oc(R); for (int i = 0; i < R; ++i) oc(i) = o.coeffs()(i).a; r.out_dev = (double)rot_norm_dev(SpecOf<GD>::get(), oc); }
     } break;
     case 21: case 22: {
       // manifold Minus: out = y (-) x
@@ -151,7 +153,11 @@ static Res evaluate(int idx, const GD& X, const GD& Y, const TD& T, const TD& U,
       typename manif::CeresConstraintFunctor<GD>::Covariance cov = manif::CeresConstraintFunctor<GD>::Covariance::Identity();
       for (int i = 0; i < D; ++i) cov(i, i) = 0.01 + cov_scale * (1 + i);
       const typename manif::CeresConstraintFunctor<GD>::Covariance covc = cov;
-      const manif::CeresConstraintFunctor<GD> f(U, covc);
+      // the covariance is given either to the constructor or through the setter after construction
+      const bool via_setter = cov_scale > 0.5;
+      const typename manif::CeresConstraintFunctor<GD>::Covariance cov0 = via_setter ? typename manif::CeresConstraintFunctor<GD>::Covariance(manif::CeresConstraintFunctor<GD>::Covariance::Identity()) : covc;
+      manif::CeresConstraintFunctor<GD> f(U, cov0);
+      if (via_setter) f.setMeasurementCovariance(covc);
       std::vector<Scalar> pa(R), fu(R), out(D);
       const bool wrt_past = idx == 24;
       const GroupT Pj = wrt_past ? perturbed(X) : Xc, Fj = wrt_past ? Yc : perturbed(Y);
@@ -178,7 +184,15 @@ vf::Outcome run_case(const vf::Case& c, const vf::RunCtx& ctx) {
   const double* p = c.reals.data();
   const int idx = (int)c.ints[0];
   try {
-    const GD X = make_elem<GD>(p), Y = make_elem<GD>(p + R);
+    GD X = make_elem<GD>(p); const GD Y = make_elem<GD>(p + R);
+    if (idx >= 17 && idx <= 20) {
+      // a raw-pointer state handed to the functors is "valid" when it is inside the acceptance band, not only unit to rounding
+      typename GD::DataType d = X.coeffs();
+      const LD f = 1.0L + 0.9L * (LD)manif::Constants<double>::eps * (2 * (LD)c.reals[2 * R + 2 * D + N] - 1);
+      for (size_t b = 0; b < s.e.size(); ++b) { const Elem& e = s.e[b]; if (e.k == K_RN) continue;
+        for (int i = 0; i < e.nrot(); ++i) d(s.rep_off((int)b) + e.rot0() + i) = (double)((LD)d(s.rep_off((int)b) + e.rot0() + i) * f); }
+      X = GD(d);
+    }
     const TD T = make_tan<GD>(p + 2 * R), U = make_tan<GD>(p + 2 * R + D);
     const typename GD::Vector pt = make_pt<GD>(p + 2 * R + 2 * D);
     const VecL xc = toVL(X.coeffs()), yc = toVL(Y.coeffs());
@@ -208,6 +222,7 @@ vf::Outcome run_case(const vf::Case& c, const vf::RunCtx& ctx) {
       for (LD ang : ref_angles_of_coeffs(s, ref_coeffs(s, M))) cut = std::max(cut, ang);
       if (cut > M_PI - 1e-6) { k.label("skipped: logarithm within 1e-6 of the cut"); k.inconclusive("outside the domain"); return k.o; }
     }
+    if (r.check_valid) k.bound("functor output valid:" + r.name, r.out_dev, manif::Constants<double>::eps, r.name + ": the state written by the functor is not a valid element");
     k.bound("primal:" + r.name, r.perr, 64 * kU * 4, r.name + ": primal part over the dual scalar differs from the double computation");
     MatL extra;
     if (r.rows_tan && r.cols_tan) extra = lin_row_scale(s, Sv) * (LD)(64 * kU / kJacTol);
